@@ -420,10 +420,20 @@ def snapshot(objs):
 # ------------------------------------------------------------------------------------------------
 
 def run(ctx):
+    import time
+    t0 = time.time()
+    phases = ctx.extra.setdefault('phase_seconds', {})
+
+    def lap(name):
+        nonlocal t0
+        phases[name] = round(time.time() - t0, 1); t0 = time.time()
     ctx.build_repo()
     from pyiga import bspline, geometry, utils
+    lap('build_repo')
     ctx.require_lean(['Pyiga.Props.C07', 'drv_c07'])
+    lap('lake build (incl. lock wait)')
     ctx.audit(['Pyiga.Props.C07'], THEOREMS, MODULES)
+    lap('axiom audit (incl. lock wait)')
     if ctx.tier == 'thorough':
         ctx.leanchecker(MODULES)
     ctx.level = 'proof (partial)'
@@ -470,7 +480,7 @@ def run(ctx):
                     mutated.append(name)
         return f
 
-    nfun = {'quick': (70, 70, 45), 'thorough': (600, 600, 400)}[ctx.tier]
+    nfun = {'quick': (60, 60, 36), 'thorough': (600, 600, 400)}[ctx.tier]
     funcs = []
     for sdim in (1, 2, 3):
         for _ in range(nfun[sdim - 1]):
@@ -639,8 +649,11 @@ def run(ctx):
         add('hesspairs %d' % nn, None, ('hesspairs', nn))
 
     # ---- run implementation + model, diff
+    lap('generate requests')
     answers = [run_impl(t) if t is not None else None for t in thunks]
+    lap('run implementation')
     got = ctx.model('drv_c07', req)
+    lap('run model driver')
     ndis = 0
     nbad = sum(1 for g in got if g == 'bad-request')
     if nbad:
@@ -672,6 +685,7 @@ def run(ctx):
                    ndis == 0, '%d disagreements' % ndis)
     ctx.extra['requests'] = len(req)
 
+    lap('compare')
     # ---- defects of the pinned tree that the model reproduces as coded: the property itself fails there
     known_probes(ctx)
     probe_copy_support(ctx)
@@ -684,6 +698,7 @@ def run(ctx):
 
     # ---- model-free oracle cross-checks (support the search; tests, not proofs)
     oracle_checks(ctx, funcs)
+    lap('oracle cross-checks')
 
 
 def scalar_vector_bsp(g1, g2):
